@@ -21,10 +21,94 @@ type Script struct {
 }
 
 func (c *FnCtx) buildScript() *Script {
-	s := &Script{f: c.f, Extra: c.termAxioms}
+	s := &Script{f: c.f}
 	for _, o := range c.obls {
 		s.Goals = append(s.Goals, o.Cond)
 	}
+	// keep only the axioms that (transitively) share an uninterpreted specification symbol with the goals
+	syms := map[string]bool{}
+	seen := map[int]bool{}
+	var collect func(t *Term, into map[string]bool)
+	collect = func(t *Term, into map[string]bool) {
+		if seen[t.id] && into == nil {
+			return
+		}
+		if strings.HasPrefix(t.op, "spec$") {
+			into[t.op] = true
+		}
+		for _, a := range t.args {
+			collect(a, into)
+		}
+	}
+	walked := map[int]bool{}
+	var walk func(t *Term)
+	walk = func(t *Term) {
+		if walked[t.id] {
+			return
+		}
+		walked[t.id] = true
+		if strings.HasPrefix(t.op, "spec$") {
+			syms[t.op] = true
+		}
+		for _, a := range t.args {
+			walk(a)
+		}
+	}
+	for _, g := range s.Goals {
+		walk(g)
+	}
+	if c.coverCond != nil {
+		walk(c.coverCond)
+	}
+	axSyms := make([]map[string]bool, len(c.termAxioms))
+	for i, ax := range c.termAxioms {
+		m := map[string]bool{}
+		w2 := map[int]bool{}
+		var wk func(t *Term)
+		wk = func(t *Term) {
+			if w2[t.id] {
+				return
+			}
+			w2[t.id] = true
+			if strings.HasPrefix(t.op, "spec$") {
+				m[t.op] = true
+			}
+			for _, a := range t.args {
+				wk(a)
+			}
+		}
+		wk(ax)
+		axSyms[i] = m
+	}
+	used := make([]bool, len(c.termAxioms))
+	for changed := true; changed; {
+		changed = false
+		for i := range c.termAxioms {
+			if used[i] {
+				continue
+			}
+			hit := len(axSyms[i]) == 0
+			for sname := range axSyms[i] {
+				if syms[sname] {
+					hit = true
+					break
+				}
+			}
+			if hit {
+				used[i] = true
+				changed = true
+				for sname := range axSyms[i] {
+					syms[sname] = true
+				}
+			}
+		}
+	}
+	for i, ax := range c.termAxioms {
+		if used[i] {
+			s.Extra = append(s.Extra, ax)
+		}
+	}
+	_ = collect
 	return s
 }
 
@@ -69,11 +153,13 @@ func (s *Script) Text(sel []int, negate bool) string {
 	}
 	roots := append([]*Term{}, f.ranges...)
 	roots = append(roots, s.Extra...)
+	hints := extHints(f, goals)
+	roots = append(roots, hints...)
 	roots = append(roots, goals...)
 	p := &Printer{f: f, defined: map[int]string{}, out: &strings.Builder{}, refs: map[int]int{}}
 	txt := p.Define(roots...)
 	sb.WriteString(p.out.String())
-	nr := len(f.ranges) + len(s.Extra)
+	nr := len(f.ranges) + len(s.Extra) + len(hints)
 	for i := 0; i < nr; i++ {
 		fmt.Fprintf(&sb, "(assert %s)\n", txt[i])
 	}
@@ -291,4 +377,71 @@ func winner(runs []SolverRun) (string, float64) {
 // CheckSat runs the script expecting satisfiability information (vacuity guards).
 func CheckSat(script, dir, name string, timeout time.Duration) (string, []SolverRun) {
 	return Race(script, dir, name, timeout, false)
+}
+
+// extHints introduces the extensionality triggers the solvers do not find on their own: for two ground
+// applications of the same uninterpreted specification function whose sequence arguments differ
+// syntactically, the tautology eq(a,b) or not eq(a,b) puts the term eq(a,b) on the table, which fires the
+// (skolemised) extensionality axiom. Pure hints: they do not change the meaning of the query.
+func extHints(f *TermFactory, goals []*Term) []*Term {
+	apps := map[string][]*Term{}
+	seen := map[int]bool{}
+	var walk func(t *Term)
+	walk = func(t *Term) {
+		if seen[t.id] {
+			return
+		}
+		seen[t.id] = true
+		if strings.HasPrefix(t.op, "spec$") && !t.bound {
+			apps[t.op] = append(apps[t.op], t)
+		}
+		for _, a := range t.args {
+			walk(a)
+		}
+	}
+	for _, g := range goals {
+		walk(g)
+	}
+	var out []*Term
+	done := map[[2]int]bool{}
+	var names []string
+	for n := range apps {
+		names = append(names, n)
+	}
+	sortStrings(names)
+	for _, n := range names {
+		as := apps[n]
+		if len(as) > 12 {
+			as = as[:12]
+		}
+		for i := 0; i < len(as); i++ {
+			for j := i + 1; j < len(as); j++ {
+				for k := range as[i].args {
+					a, b := as[i].args[k], as[j].args[k]
+					if a == b || !strings.HasPrefix(string(a.sort), "Seq$") || a.sort != b.sort {
+						continue
+					}
+					key := [2]int{a.id, b.id}
+					if a.id > b.id {
+						key = [2]int{b.id, a.id}
+					}
+					if done[key] || len(out) >= 60 {
+						continue
+					}
+					done[key] = true
+					e := f.SEq(a, b)
+					out = append(out, f.mk("or", SBool, "", e, f.mk("not", SBool, "", e)))
+				}
+			}
+		}
+	}
+	return out
+}
+
+func sortStrings(xs []string) {
+	for i := 1; i < len(xs); i++ {
+		for j := i; j > 0 && xs[j] < xs[j-1]; j-- {
+			xs[j], xs[j-1] = xs[j-1], xs[j]
+		}
+	}
 }
